@@ -134,7 +134,7 @@ func (g *pgen) atom(depth int) string {
 	}
 }
 
-var classItems = []string{"a", "b", "c", "a", "b", "c", "-", "A", "1", "_", " ", "^", ".", "*", "(", "[", "$", "|", "/"}
+var classItems = []string{"a", "b", "c", "a", "b", "c", "-", "A", "1", "_", " ", "^", ".", "*", "(", ")", "[", "$", "|", "/", "?", "+", "{", "}"}
 var classEscItems = []string{`\d`, `\w`, `\s`, `\D`, `\W`, `\S`, `\n`, `\b`, `\x61`, `\-`, `\]`, `\\`, `\t`, `b`, `\cJ`, `\0`, `\^`, `\r`, `\v`}
 var classRanges = []string{"a-c", "a-b", "b-c", "A-C", "0-9", "a-a", "A-c", `\x61-c`, `a-\x63`, "--a", " -c", `\t-\r`}
 
